@@ -707,7 +707,8 @@ def short_cval(repo: Repo, rep, P: str):
     for n in ast.walk(cvf):
         if isinstance(n, ast.Call) and isinstance(n.func, ast.Attribute) and n.func.attr in ("append", "extend") and norm(n.func.value) == "self._cvals" and n.args:
             a = n.args[0]
-            collected = collected or a in unp or (isinstance(a, ast.Name) and a.id in unpacked_names)
+            collected = collected or a in unp or (isinstance(a, ast.Name) and a.id in unpacked_names) or \
+                (n.func.attr == "append" and isinstance(a, ast.Subscript) and a.value in unp and isinstance(a.slice, ast.Constant) and a.slice.value == 0)
         if isinstance(n, ast.AugAssign) and isinstance(n.op, ast.Add) and norm(n.target) == "self._cvals":
             a = n.value
             collected = collected or a in unp or (isinstance(a, ast.Name) and a.id in unpacked_names) or \
